@@ -336,3 +336,26 @@ Example completes_after_two_losses :
   let r := retry_k false 0 880 200 ([(5000, Final); (5000, Final)] ++ (1, Final) :: []) ([100; 100] ++ [100]) in
   cr_ok r = true /\ cr_attempts r = 3%nat /\ cr_end r = 0 + spent 200 [(5000, Final); (5000, Final)] [100; 100] + 1.
 Proof. vm_compute. repeat split. Qed.
+
+(* the fault-free procedure: every exchange answered at its first attempt within the timeout, the answers' delays fit
+   before the deadline - the procedure succeeds with one transmission per exchange, at the sum of the delays *)
+Fixpoint total_delay (ds : list N) : N := match ds with [] => 0 | d :: r => d + total_delay r end.
+
+Theorem run_calls_fault_free : forall sess ds t D T (tails : list (list attempt_k * list N)),
+  length tails = length ds ->
+  Forall (fun d => d <= T) ds -> t + total_delay ds < D ->
+  let calls := map (fun x : N * (list attempt_k * list N) => ((fst x, Final) :: fst (snd x), snd (snd x))) (combine ds tails) in
+  let p := run_calls sess t D T calls in
+  pr_ok p = true /\ pr_calls p = length ds /\ pr_attempts p = length ds /\ pr_end p = t + total_delay ds.
+Proof.
+  intros sess. induction ds as [|d ds IH]; intros t D T tails Hlen Hall HD.
+  - cbn. repeat split. lia.
+  - destruct tails as [|[post srest] tails]; [discriminate|]. cbn [length] in Hlen. injection Hlen as Hlen.
+    inversion Hall as [|? ? Hd Hrest]; subst. cbn [total_delay] in HD.
+    cbn [combine map fst snd run_calls].
+    destruct (retry_k_completes sess [] [] d post srest t D T eq_refl (Forall_nil _) (fun _ => Forall_nil _) Hd
+                ltac:(cbn [spent]; lia)) as [Hok [Hatt Hend]].
+    cbn [app spent length] in Hok, Hatt, Hend. rewrite Hok, Hatt, Hend.
+    destruct (IH (t + 0 + d) D T tails Hlen Hrest ltac:(lia)) as [Pok [Pcalls [Patt Pend]]].
+    cbn [pr_ok pr_calls pr_attempts pr_end length total_delay]. rewrite Pok, Pcalls, Patt, Pend. repeat split; lia.
+Qed.
